@@ -75,7 +75,11 @@ def monStep (cfg : Config) (m : Mon) (op : Op) (o : IObs) : Mon × Option String
      if o.res == .panic then some "C17/pool-panic" else v15)
   | .poll r =>
     let lost : Option String :=
-      if m.pend.contains r && !o.woke && o.res != .pending && o.res != .noop then some "C03/lost-wakeup" else none
+      -- (if what it missed is a connection, the request would have gone on waiting for its own dial with an open connection
+      --  parked in its channel - C14 - and later requests dial for nothing - C04)
+      if m.pend.contains r && !o.woke && o.res != .pending && o.res != .noop then
+        some (match o.res with | .got _ _ => "C03/lost-wakeup,C14/lost-wakeup-for-a-released-connection,C04/lost-wakeup-for-a-released-connection" | _ => "C03/lost-wakeup")
+      else none
     let m2 := { m1 with pend := if o.res == .pending then (if m.pend.contains r then m.pend else r :: m.pend)
                                  else m.pend.filter (· != r) }
     match o.res with
@@ -98,6 +102,9 @@ def monStep (cfg : Config) (m : Mon) (op : Op) (o : IObs) : Mon × Option String
   | .finish r => ({ m1 with holders := if o.res == .done then m.holders.filter (·.1 != r) else m.holders }, v15)
   | .cancel r => ({ m1 with holders := if o.res == .done then m.holders.filter (·.1 != r) else m.holders,
                             pend := m.pend.filter (· != r) }, v15)
+  | .cancelOff r => ({ m1 with holders := if o.res == .done then m.holders.filter (·.1 != r) else m.holders,
+                               pend := if o.res == .done then m.pend.filter (· != r) else m.pend },
+                     if o.res == .panic then some "C17/pool-panic" else v15)
   | .connReady c => ({ m1 with busy := if o.res == .done then m.busy.filter (· != c) else m.busy }, v15)
   | .connClose c => ({ m1 with closed := if (m.closed.lookup c).isSome || o.res != .done then m.closed else (c, m.idx) :: m.closed }, v15)
   | .connFail c => ({ m1 with failed := if o.res == .done then c :: m.failed else m.failed }, v15)
